@@ -109,7 +109,7 @@ fn e2e_push_char(pre: (Repr, Ghost)) {
     core::mem::forget(s);
 }
 
-// @harness name=e2e_push_char_inline props=C01,C05,C07,C09 class=U tier=quick fn=LeanString::try_push covers=push.inline_stays_inline
+// @harness name=e2e_push_char_inline nodebug=thorough props=C01,C05,C07,C09 class=U tier=quick fn=LeanString::try_push covers=push.inline_stays_inline
 #[kani::proof]
 #[kani::stub(alloc::alloc::alloc, v_alloc)]
 #[kani::stub(alloc::alloc::dealloc, v_dealloc)]
@@ -281,7 +281,7 @@ fn e2e_insert_char_unique() {
     e2e_insert_char(small(1));
 }
 
-// @harness name=e2e_insert_char_shared props=C01,C02,C03,C05,C10,C11 class=B bound="shared heap block of capacity <= 48, argument <= 24 bytes; memmove under its frame contract" tier=quick fn=LeanString::try_insert timeout=700
+// @harness name=e2e_insert_char_shared nodebug=thorough props=C01,C02,C03,C05,C10,C11 class=B bound="shared heap block of capacity <= 48, argument <= 24 bytes; memmove under its frame contract" tier=quick fn=LeanString::try_insert timeout=700
 #[kani::proof]
 #[kani::stub(alloc::alloc::alloc, v_alloc)]
 #[kani::stub(alloc::alloc::dealloc, v_dealloc)]
